@@ -12,6 +12,7 @@ type tgtDesc struct {
 	base   *Term
 	prefix bool // key is a prefix (ghost state function at every argument sort)
 	chanLen bool
+	elem    types.Type
 }
 
 func (ec *EvalCtx) leafDescs(p PtrV, t types.Type, whole bool) []tgtDesc {
@@ -127,6 +128,13 @@ func (ec *EvalCtx) describeTarget(tgt string) []tgtDesc {
 			}
 			return ec.leafDescs(p, p.Elem, false)
 		}
+		if e.Name == "$cap" || e.Name == "$open" || e.Name == "$chan" {
+			if tv, ok := ec.eval(e.Args[0]).(TV); ok && tv.Typ != nil {
+				st.setChanElem(tv.Typ)
+			} else {
+				fail("modifies %s: channel of unknown type", tgt)
+			}
+		}
 		if e.Name == "$cap" {
 			ch := ec.evalTerm(e.Args[0])
 			return []tgtDesc{{key: st.chanKey("cap"), base: &ch}}
@@ -137,7 +145,7 @@ func (ec *EvalCtx) describeTarget(tgt string) []tgtDesc {
 		}
 		if e.Name == "$chan" {
 			ch := ec.evalTerm(e.Args[0])
-			return []tgtDesc{{key: st.chanKey("sent"), base: &ch}, {key: st.chanKey("rcvd"), base: &ch, chanLen: true}, {key: "CHV:<", prefix: true}}
+			return []tgtDesc{{key: st.chanKey("sent"), base: &ch}, {key: st.chanKey("rcvd"), base: &ch, chanLen: true, elem: st.curChanElem}, {key: "CHV:<" + typeRepr(st.curChanElem) + ">", prefix: true}}
 		}
 	case "ident":
 		if v, ok := ec.names[e.Name]; ok {
@@ -202,9 +210,31 @@ func (ec *EvalCtx) describeTarget(tgt string) []tgtDesc {
 
 // havocTarget: make the named location(s) unconstrained in the current state.
 func (ec *EvalCtx) havocTarget(tgt string) {
+	ec.havocDescs(ec.describeTarget(tgt))
+}
+
+// havocTargets: all targets are resolved in the state before any of them is havocked (so that `modifies x.f, $open(x.f)` means the old x.f).
+func (ec *EvalCtx) havocTargets(tgts []string) {
+	var all []tgtDesc
+	var later []string
+	for _, t := range tgts {
+		if strings.Contains(t, "result") {
+			// locations reached through the result exist only after the call: resolved one by one, in order, in the new state
+			later = append(later, t)
+			continue
+		}
+		all = append(all, ec.describeTarget(t)...)
+	}
+	ec.havocDescs(all)
+	for _, t := range later {
+		ec.havocDescs(ec.describeTarget(t))
+	}
+}
+
+func (ec *EvalCtx) havocDescs(descs []tgtDesc) {
 	st := ec.st
 	vc := st.vc
-	for _, d := range ec.describeTarget(tgt) {
+	for _, d := range descs {
 		switch {
 		case d.key == allocKey:
 			old := st.get(allocKey)
@@ -240,6 +270,7 @@ func (ec *EvalCtx) havocTarget(tgt string) {
 			nv := st.declare("mv", es)
 			st.set(d.key, tStore(arr, *d.base, nv))
 			if d.chanLen {
+				st.curChanElem = d.elem
 				st.chanWF(*d.base)
 			}
 		}
